@@ -473,11 +473,15 @@ class SelectWith(Statement):
         arg: Value = self._arg
 
         if isinstance(TypeQualifier.decay(arg.result), BitVector):
-            root = TypeQualifier.decay(arg.result._root)
+            root_type = arg.result._root.type
 
-            if isinstance(root, Unsigned):
+            if issubclass(root_type, Array):
+                # the VHDL type of array elements is defined by the element type
+                root_type = root_type._elemtype_
+
+            if issubclass(root_type, Unsigned):
                 arg = Value(arg.result.unsigned)
-            elif isinstance(root, Signed):
+            elif issubclass(root_type, Signed):
                 arg = Value(arg.result.signed)
             else:
                 arg = Value(arg.result.bitvector)
@@ -529,11 +533,15 @@ class CaseWhen(Statement):
         cond: Value = self._cond
 
         if isinstance(TypeQualifier.decay(cond.result), BitVector):
-            root = TypeQualifier.decay(cond.result._root)
+            root_type = cond.result._root.type
 
-            if isinstance(root, Unsigned):
+            if issubclass(root_type, Array):
+                # the VHDL type of array elements is defined by the element type
+                root_type = root_type._elemtype_
+
+            if issubclass(root_type, Unsigned):
                 cond = Value(cond.result.unsigned)
-            elif isinstance(root, Signed):
+            elif issubclass(root_type, Signed):
                 cond = Value(cond.result.signed)
             else:
                 cond = Value(cond.result.bitvector)
